@@ -81,7 +81,7 @@ pub fn gen_cases(cfg: &RunCfg) -> Vec<Case> {
             .collect();
         if all_faulty {
             let same = rng.chance(1, 2).then(|| [2usize, 4, 0, 1, 3][rng.below(5)]);
-            let faults = eligible.iter().map(|(mi, di)| (*mi, *di, same.unwrap_or_else(|| rng.below(5)))).collect();
+            let faults = eligible.iter().map(|(mi, di)| (*mi, *di, same.unwrap_or_else(|| rng.below(10)))).collect();
             cases.push(Case { base: mods, faults });
             continue;
         }
@@ -91,7 +91,7 @@ pub fn gen_cases(cfg: &RunCfg) -> Vec<Case> {
         while faults.len() < n_faults {
             let (mi, di) = *rng.pick(&eligible);
             if taken.insert((mi, di)) {
-                faults.push((mi, di, rng.below(5)));
+                faults.push((mi, di, rng.below(10)));
             }
         }
         cases.push(Case { base: mods, faults });
